@@ -273,7 +273,7 @@ func init() {
 			"bcl.Parse must accept exactly the accepted ones silently, reject the rejected ones with err != nil and a first 'line L:C: error' diagnostic at the end of token k, Interpret must return no results for them, and err != nil <=> diagnostics in every case. " +
 			"Workload: all sequences of length <= 2 over a 55-token vocabulary, generated sentences (3-25 tokens) with EVERY single-token deletion, transposition, insertion and replacement by each vocabulary token (incl. value-less literals and lexer-failing tokens), random sequences, " +
 			"and two-fault programs (fault in a var/eval/print statement, second fault in a later var/def/eval/print statement: a diagnostic at the second fault's predicted token is required). Layout calm and hostile. " +
-			"distinct = hash of source; non-trivial = recognizer verdict definite The vocabulary includes an identifier starting with '_' (which may touch a preceding string literal); two-fault programs may use the same value-less literal in both statements. All calls of a worker go through ONE option slice built once and reused (before its first use a few calls are made through it with failing output and log writers: nothing may stick to the option values). Every rejected source is also parsed with statistics, disassembly and trace on: the error must still be non-nil.",
+			"distinct = hash of source; non-trivial = recognizer verdict definite The vocabulary includes an identifier starting with '_' (which may touch a preceding string literal); two-fault programs may use the same value-less literal in both statements. All calls of a worker go through ONE option slice built once and reused (before its first use a few calls are made through it with failing output and log writers: nothing may stick to the option values). Every rejected source is also parsed with statistics, disassembly and trace on: the error must still be non-nil. 12 sentences (and 6 edits of each) placed behind 48..135 KiB of code.",
 		Assumptions:   []string{"DESIGN §5.2 is the grammar; 'not' as right operand of a tighter operator is unspecified (§5.3)"},
 		MinNontrivial: 1000,
 		Run: func(c *core.Ctx) {
